@@ -451,6 +451,11 @@ func Run(sc *Scenario, seed Seed, cfg Config) (*Stats, []Found) {
 						if !changed {
 							continue // state and ghost unchanged by construction of a failed tx
 						}
+						if act.Kind == ActNextBlock && !res.OK {
+							// block processing failed: a real chain halts here, nothing is reachable beyond
+							// (the failure itself was given to the monitors above)
+							continue
+						}
 						key := post.Key(ghostDigest(gs))
 						if !vis.add(key) {
 							continue
